@@ -9,3 +9,18 @@ EP = 'USE(lemma_epoch_REQ(), lemma_epoch_ENS(), "epoch");'
 HOOKS['LocalTime_TransitionType'] = [(r'return \{', EP + "\n" +
     use('secrepr', ['EPOCHSEC + (Z)unix_time']) + "\n" + use('secrepr', ['EPOCHSEC + (Z)unix_time + (Z)(*tt).utc_offset']))]
 HOOKS['LocalTime_Transition'] = [(r'const TransitionType & tt', use('secrepr', ['OSEC((*tr).civil_sec) + ((Z)unix_time - (Z)(*tr).unix_time)']))]
+
+
+def lex(a, b):
+    return use('osec_lex', [a, b]) + "\n" + use('osec_lex', [b, a])
+
+
+Z = "self"
+N1 = "NTR(self) - 1"
+_entries = ["TR(self, 0)", "TR(self, %s)" % N1]
+MT0 = "\n".join([lex("cs", e + ".civil_sec") + "\n" + lex("cs", e + ".prev_civil_sec") for e in _entries]) + "\n" + \
+      lex("cs", "TY(self, DEFTY(self)).civil_min") + "\n" + lex("cs", "TY(self, TR(self, %s).type_index).civil_max" % N1) + "\n" + \
+      "if (gz_j >= 1 && gz_j < NTR(self)) {\n" + \
+      "\n".join([lex("cs", "TR(self, %s).civil_sec" % j) + "\n" + lex("cs", "TR(self, %s).prev_civil_sec" % j) for j in ("gz_j", "gz_j - 1")]) + "\n}\n" + \
+      'USE(lemma_epoch_REQ(), lemma_epoch_ENS(), "epoch");'
+GHOST['MakeTime'] = {0: MT0}
